@@ -16,14 +16,23 @@ Definition bits (agree spec dom : bool) : N :=
    bit 1: model = implementation (representation of r, all three texts)
    bit 2: r and t_round satisfy the specification oracles
    bit 4: inside the exact domain *)
-Definition c17_val_case (d : dec) (k : N) (r : dec) (t_round t_trunc t_plain : str) : N :=
+Definition ostr_eqb (a b : option str) : bool := opt_eqb (list_eqb N.eqb) a b.
+
+(* texts are options: None = the implementation panicked (Display buffer, finding F18).
+   bit 2 is clear when the rounded figure could not be printed at all. *)
+Definition c17_val_case (d : dec) (k : N) (r : dec) (t_round t_trunc t_plain : option str) : N :=
   let m := dround_hafz d k in
   let agree := drepr_eqb m r
-               && list_eqb N.eqb (dfmt_prec m k) t_round
-               && list_eqb N.eqb (dfmt_prec d k) t_trunc
-               && list_eqb N.eqb (dfmt d) t_plain in
-  let spec := round_ok k d r && shown_ok (mkScale k k) d t_round in
+               && ostr_eqb (dfmt_prec m k) t_round
+               && ostr_eqb (dfmt_prec d k) t_trunc
+               && ostr_eqb (dfmt d) t_plain in
+  let spec := round_ok k d r
+              && match t_round with Some t => shown_ok (mkScale k k) d t | None => false end in
   bits agree spec (fits d && (k <=? 28)%N).
+
+(* the class of finding F18: the figure, rounded for display, needs more than 32 characters *)
+Definition c17_val_overflow (d : dec) (k : N) : N :=
+  if dfmt_room (dround_hafz d k) k then 0%N else 1%N.
 
 (* ---- report level --------------------------------------------------------------------
    a figure of a report: the exact decimal from the hook, the text found in the report,
@@ -43,9 +52,9 @@ Fixpoint scales_upto (n : nat) : list N :=
 Definition fig_agree (sc : scale_cfg) (f : fig) : bool :=
   if f_scale_free f
   then existsb (fun s => needs_at_most (f_exact f) s
-                         && list_eqb N.eqb (shown_text sc (with_scale (f_exact f) s)) (f_text f))
+                         && ostr_eqb (shown_text sc (with_scale (f_exact f) s)) (Some (f_text f)))
                (scales_upto 28)
-  else list_eqb N.eqb (shown_text sc (f_exact f)) (f_text f).
+  else ostr_eqb (shown_text sc (f_exact f)) (Some (f_text f)).
 
 Definition fig_spec (sc : scale_cfg) (f : fig) : bool := shown_ok sc (f_exact f) (f_text f).
 
@@ -60,15 +69,27 @@ Fixpoint first_bad (p : fig -> bool) (l : list fig) (i : N) : N :=
 Definition sums_ok (sums : list (dec * list dec)) : bool :=
   forallb (fun tp => d28 (fst tp) =? zsum (map d28 (snd tp))) sums.
 
+(* every partial sum of the parts is representable: the sum of the absolute values at the
+   largest scale that occurs fits in 96 bits (as in C02_corr.in_domain) *)
+Definition sum_dom (l : list dec) : bool :=
+  let s := fold_right N.max 0%N (map ds l) in
+  (s <=? 28)%N && forallb fits l && (zsum (map (fun d => Z.abs (rescale d s)) l) <? 2 ^ 96).
+
 (* result: bits + 8 * (1 + index of the first figure failing the oracle, else failing the
    comparison with the model) *)
 Definition c17_rep_case (sc : scale_cfg) (figs : list fig) (sums : list (dec * list dec)) : N :=
   let agree := forallb (fig_agree sc) figs in
   let spec := forallb (fig_spec sc) figs && sums_ok sums in
   let dom := forallb (fun f => fits (f_exact f)) figs
-             && forallb (fun tp => fits (fst tp) && forallb fits (snd tp)) sums in
+             && forallb (fun tp => sum_dom (fst tp :: snd tp)) sums in
   let bad := match first_bad (fig_spec sc) figs 0 with
              | 0%N => first_bad (fig_agree sc) figs 0
              | n => n
              end in
   (bits agree spec dom + 8 * bad)%N.
+
+(* a report whose text operation panicked: figs carry the exact figures (texts unused).
+   1 = the model predicts the panic too (some figure has no text), 0 = it does not *)
+Definition c17_rep_panics (sc : scale_cfg) (figs : list fig) : N :=
+  if forallb (fun f => match shown_text sc (f_exact f) with Some _ => true | None => false end) figs
+  then 0%N else 1%N.
